@@ -51,12 +51,12 @@ def rterm(x):
     return R_(t) if z3.is_int(t) else t
 
 
-def fork_knots(ctx):
+def fork_knots(ctx, choices=KNOTS):
     """number of knots per scan line: 1..4 (the property's range), one path each"""
-    for K in KNOTS[:-1]:
+    for K in choices[:-1]:
         if ctx.branch(ctx.fresh(f"knots_is_{K}", "bool").t):
             return K
-    return KNOTS[-1]
+    return choices[-1]
 
 
 # ------------------------------------------------------------------------------------------------
@@ -532,8 +532,8 @@ def slab_total(arr, j):
     return g[0][j].term()
 
 
-def pp_setup(ctx, N=2, pad_kinds=("list", "median")):
-    K = fork_knots(ctx)
+def pp_setup(ctx, N=2, pad_kinds=("list", "median"), knots=KNOTS):
+    K = fork_knots(ctx, knots)
     H, W = ctx.fresh("H", "int"), ctx.fresh("W", "int")
     images = [ImageStub((H, W), ctx.fresh_arr(f"image{a}", (H, W), "real")) for a in range(N)]
     deg = ctx.fresh_arr("scan_direction_degrees", (N,), "real")
@@ -628,10 +628,11 @@ def pp_ensures(s):
 PP_INLINE = [f"{DR}:DriftCorrection.images", f"{DR}:DriftCorrection.pad_value", f"{DR}:DriftCorrection.scan_direction_degrees",
              f"{DR}:DriftCorrection.pad_fraction", f"{DR}:DriftCorrection.kde_sigma", f"{DR}:DriftCorrection.number_knots",
              f"{CV}:validate_pad_value"]
-# one contract object per stack size (2..4 = the property's range) so that they are verified in parallel
+# one contract object per stack size (2..4 = the property's range) so that they are verified in parallel; the knot count only
+# enters per image, so all of 1..4 are run for stacks of 2 and the extremes 1 and 4 for stacks of 3 and 4
 C_PP = Contract(f"{DR}:DriftCorrection.preprocess", setup=pp_setup, requires=pp_requires, ensures=pp_ensures, inline=PP_INLINE)
-C_PP3 = Contract(f"{DR}:DriftCorrection.preprocess", setup=lambda ctx: pp_setup(ctx, 3, ("list",)), requires=pp_requires, ensures=pp_ensures, inline=PP_INLINE)
-C_PP4 = Contract(f"{DR}:DriftCorrection.preprocess", setup=lambda ctx: pp_setup(ctx, 4, ("list",)), requires=pp_requires, ensures=pp_ensures, inline=PP_INLINE)
+C_PP3 = Contract(f"{DR}:DriftCorrection.preprocess", setup=lambda ctx: pp_setup(ctx, 3, ("list",), (1, 4)), requires=pp_requires, ensures=pp_ensures, inline=PP_INLINE)
+C_PP4 = Contract(f"{DR}:DriftCorrection.preprocess", setup=lambda ctx: pp_setup(ctx, 4, ("list",), (1, 4)), requires=pp_requires, ensures=pp_ensures, inline=PP_INLINE)
 
 # opaque collaborator (NOT verified): error bookkeeping; assumed frame = writes only self.error_track
 C_CALCERR = Contract(f"{DR}:DriftCorrection.calculate_error", setup=lambda ctx: NS(self=Obj(DC, {}), mode=0),
@@ -649,7 +650,7 @@ def at_setup(ctx):
         if ctx.branch(ctx.fresh(f"stack_of_{n}", "bool").t):
             N = n
             break
-    K = fork_knots(ctx)
+    K = fork_knots(ctx, (1, 4))  # the bookkeeping does not look at the knot axis: smallest and largest count
     H, W = ctx.fresh("H", "int"), ctx.fresh("W", "int")
     S1, S2 = ctx.fresh("S1", "int"), ctx.fresh("S2", "int")
     images = [ImageStub((H, W), ctx.fresh_arr(f"image{a}", (H, W), "real")) for a in range(N)]
@@ -776,7 +777,7 @@ def lemma_knot_counts_agree(ctx):
 
 
 def lemma_rotation(ctx):
-    """the scan vectors are an orthonormal pair with determinant -1*... : |fast| = |slow| = 1, fast.slow = 0 (cos^2 + sin^2 = 1),
+    """the scan vectors are an orthonormal pair: |fast| = |slow| = 1, fast.slow = 0 (cos^2 + sin^2 = 1),
     so the map offset -> fast*dc + slow*dr is an isometry (distances between pixels are preserved on the canvas)."""
     theta, dr, dc = Rl("theta_deg"), Rl("dr"), Rl("dc")
     fast, slow = rotation(theta)
@@ -1095,6 +1096,57 @@ def rt_align(inp):
                 expected="measured relative shifts are zero and the knots do not move")
 
 
+def rt_align_bookkeeping(inp):
+    """align_translation's bookkeeping on the real code with the cross-correlation replaced (inside the checker process only)
+    by prescribed shifts: every knot of image a moves by shift_a - mean(shift), shift_0 = 0; zero shifts => nothing moves."""
+    import warnings
+
+    import numpy as np
+    import quantem.imaging.drift as drift
+
+    H, W, N, K = inp["H"], inp["W"], inp["N"], inp["K"]
+    rng = np.random.default_rng(inp.get("seed", 0))
+    shifts = [np.zeros(2)] + [np.zeros(2) if inp.get("zero") else rng.uniform(-2, 2, size=2) for _ in range(N - 1)]
+    calls = []
+
+    def fake_ccs(F_ref, F_im, **kw):
+        calls.append(1)
+        return shifts[len(calls)].copy(), F_im
+
+    with warnings.catch_warnings():
+        warnings.simplefilter("ignore")
+        d = drift.DriftCorrection.from_data([_test_image(H, W, inp.get("seed", 0) + a) for a in range(N)], [10.0 * a for a in range(N)]).preprocess(number_knots=K)
+        k0 = [k.copy() for k in d.knots]
+        real = drift.cross_correlation_shift
+        drift.cross_correlation_shift = fake_ccs
+        try:
+            d.align_translation(upsample_factor=inp.get("upsample_factor", 1), show_merged=False)
+        finally:
+            drift.cross_correlation_shift = real
+    notes = []
+    if len(calls) != N - 1:
+        notes.append(f"{len(calls)} cross-correlations for {N} images")
+    mean = np.mean(shifts, axis=0)
+    for a in range(N):
+        want = k0[a] + (shifts[a] - mean)[:, None, None]
+        if d.knots[a].shape != k0[a].shape or not _close(d.knots[a], want, 1e-9):
+            notes.append(f"image {a}: knots moved by {np.round((d.knots[a] - k0[a]).reshape(2, -1)[:, 0], 4).tolist()}, expected shift-mean = {np.round(shifts[a] - mean, 4).tolist()}")
+        ws = float(np.asarray(d.weights_warped.array[a], float).sum())
+        if abs(ws - H * W) > 2e-4 * H * W + 1e-3:
+            notes.append(f"image {a}: re-warped weights sum to {ws:.6g}, not {H * W}")
+    return dict(violated=bool(notes), observed="; ".join(notes[:3]) or "ok", expected="knots[a] += shift_a - mean(shift) (shift_0 = 0); zero shifts: knots unchanged")
+
+
+def fam_align_bookkeeping(tier="quick", seed=0):
+    i = 0
+    for (H, W) in [(4, 6), (7, 5)]:
+        for N in STACK:
+            for K in KNOTS:
+                for zero in (False, True):
+                    i += 1
+                    yield dict(H=H, W=W, N=N, K=K, zero=zero, seed=seed + i)
+
+
 def klass_align(inp, res):
     return "upsample_factor>=2" if inp["upsample_factor"] >= 2 else "upsample_factor=1"
 
@@ -1200,6 +1252,7 @@ def _guard(rt):
 
 
 rt_geometry, rt_rows, rt_weights, rt_align, rt_warp = _guard(rt_geometry), _guard(rt_rows), _guard(rt_weights), _guard(rt_align), _guard(rt_warp)
+rt_align_bookkeeping = _guard(rt_align_bookkeeping)
 
 
 def _knots_from_model(ev):
@@ -1235,6 +1288,15 @@ def conc_weights(ev):
 
 for _c in (C_TR, C_TC, C_DI_INIT):
     _c.concretize, _c.rt, _c.rt_family = conc_rows, rt_rows, fam_rows
+def conc_align(ev):
+    H, W = ev("H"), ev("W")
+    if H is None or W is None or not (2 <= H <= 40 and 2 <= W <= 40):
+        return None
+    N = 2 if ev("stack_of_2", False) else 3 if ev("stack_of_3", False) else 4
+    return dict(H=H, W=W, N=N, K=1 if ev("knots_is_1", False) else 4, seed=1)
+
+
+C_AT.concretize, C_AT.rt, C_AT.rt_family = conc_align, rt_align_bookkeeping, fam_align_bookkeeping
 C_KDE.concretize, C_KDE.rt, C_KDE.rt_family = conc_weights, rt_weights, fam_weights
 C_WI.concretize, C_WI.rt, C_WI.rt_family = conc_rows, rt_warp, fam_warp
 for _c in (C_PP, C_PP3, C_PP4):
@@ -1249,6 +1311,8 @@ BOUNDED = [
     Bounded.from_rt("warp_image deposits pixel (r,c) at the coordinates of transform_coordinates", rt_warp, fam_warp, "4 shapes x 1..4 knots, random angle, 2 pixels each"),
     Bounded.from_rt("bilinear_kde / warp_image weight totals for arbitrary coordinates", rt_weights, fam_weights,
                     "4 point grids x 4 canvases x 3 sigmas x 3 batch sizes, coordinates up to 6 canvas sizes outside"),
+    Bounded.from_rt("align_translation bookkeeping with prescribed shifts (cross-correlation replaced inside the checker process)", rt_align_bookkeeping, fam_align_bookkeeping,
+                    "2 shapes x stacks 2..4 x 1..4 knots x random / zero shifts"),
     Bounded.from_rt("identical stack is a fixed point of align_translation", rt_align, fam_align,
                     "4 shapes (6 thorough), stacks of 2..4, upsample 1,2,8 (+4,16), 3 angles, 1..4 knots", klass=klass_align),
 ]
@@ -1263,6 +1327,7 @@ TRUSTED = [
     "A4: cos^2 + sin^2 = 1 at the occurring angles (ground instances)",
     "Dataset2d seen as (.shape, .array); Dataset3d.from_shape(shape) seen as an object with a zero .array of that shape",
     "ASSUMED FRAME (not verified): DriftCorrection.calculate_error writes only self.error_track",
+    "OPAQUE (not verified): cross_correlation_shift returns some pair of reals (and an array); np.fft.fft2 results are opaque values",
     "generate_batches / subdivide_batches contracts of C09 (re-verified here from the real source)",
     "pyvc engine (AST interpreter, index-function arrays, loop rule with havoc of loop-carried names and of arrays written in place), z3, cvc5",
 ]
@@ -1272,7 +1337,10 @@ ASSUMPTIONS = [
     "A3 np.round is havocked to an integer within 1/2 (canvas size)",
     "preprocess is verified for stacks of 2, 3, 4 images of one common shape (H, W >= 2), pad_fraction >= 0, kde_sigma >= 0, pad_value a list or 'median'; knot counts 1..4 (the property's range)",
     "bilinear_kde is verified with lowpass_filter=False (what warp_image passes); the lowpass branch (FFT) is outside reach",
-    "identical-stack fixed point of align_translation: BOUNDED only (FFT cross-correlation, argmax, DFT upsampling are outside deductive reach)",
+    "identical-stack fixed point of align_translation: the cross-correlation itself is BOUNDED only (FFT, argmax, DFT upsampling are outside deductive reach); "
+    "proved is the bookkeeping around it (min_image_shift=None, the default): knots move by measured shift minus mean, zero measured shifts => knots do not move",
+    "where the splatted weight lands (first moment of the bilinear deposit) is not proved: warp_image is proved to hand the coordinates of transform_coordinates to "
+    "bilinear_kde (rows <- xa, cols <- ya); the deposit position itself is a bounded check (single bright pixel, sigma = 0)",
     "a 1-row or 1-column image with pad_fraction=0 gives a canvas of size 0 or 2 (round-half-even of 0.5): outside the verified precondition H, W >= 2",
 ]
 EXPLANATION = ("VCs generated from the real source of DriftCorrection.preprocess, DriftInterpolator.__init__/transform_rows/transform_coordinates/warp_image and "
